@@ -277,7 +277,7 @@ def run(ctx, report: Report) -> None:
                      f'raise TypeError')
 
     # ---- R7 ------------------------------------------------------------------------------------------------
-    r7 = report.rule('C08-R7', 'the state pseudo-classes never raise on trees with multi-valued (list) attributes and odd text', floor=235)
+    r7 = report.rule('C08-R7', 'the state pseudo-classes never raise on trees with multi-valued (list) attributes and odd text', floor=293)
     from ..core import Rule
     from .sem import (alternatives_table, children_table, closest_filter_table, descendants_table, dir_table, empty_table, lang_table,
                       lang_memo_table, nth_bounded_table, relations_table, root_table, select_walk_table)
